@@ -174,10 +174,10 @@ PROPS["C17"] = {
     "module": "Matreex.Props.C17", "harness": "C17",
     "level_text": "PARTIAL. Machine-checked Lean 4 theorems: (type level) over the tables of struct fields, derives and Send / Sync / Clone / Copy impls re-extracted from src/iter/iter_mut.rs and src/iter.rs on every run, through a miniature of rustc's auto-trait rule: the iterator returned by iter_rows_mut / iter_cols_mut and the vector iterator it yields are Send iff T: Send and Sync iff T: Sync for all four classes of element types, are not duplicable, and never grant more than &mut T; "
                   "(run time) for every matrix, axis and call sequence on one iterator, every distribution of the handed-out references over threads, every per-thread program writing through its own references and EVERY interleaving: no address is written by two threads and the final memory equals the sequential run (from C03's refinement: no position handed out twice, distinct positions at distinct addresses). "
-                  "Tied to the implementation by in-process auto-trait probes and compile probes (cargo check of 68 client programs, accept / reject and diagnostic code, for all four (Send, Sync) classes) whose verdicts must equal the model's, and by real-thread runs (1..16 threads, jitter, ownership map thread -> addresses, final matrix vs sequential run and vs the concrete iterator model). "
+                  "Tied to the implementation by in-process auto-trait probes and compile probes (cargo check of 72 client programs, accept / reject and diagnostic code, for all four (Send, Sync) classes) whose verdicts must equal the model's, and by real-thread runs (1..16 threads, jitter, ownership map thread -> addresses, final matrix vs sequential run and vs the concrete iterator model). "
                   "Not exhibited by the model: rustc's type checker itself (the auto-trait rule is a ten-line miniature validated by the probes, not a model of trait resolution; 'all client programs' is sampled by the probe programs), variance / lifetime checking of PhantomData<&'a mut T>, and the hardware memory model (a data race is represented as two threads writing one address; the theorems show that never happens).",
     "technique": "Lean 4 theorems over source-extracted auto-trait tables and, quantified over every reference distribution and interleaving, over the C03 iterator model + rustc compile probes and real-thread differential runs",
-    "trusted": ["the auto-trait rule of Model/Traits.lean is rustc's (explicit impl under its bounds, else all fields) — checked on every run against 16 in-process and 68 compile probes",
+    "trusted": ["the auto-trait rule of Model/Traits.lean is rustc's (explicit impl under its bounds, else all fields) — checked on every run against 16 in-process and 72 compile probes",
                 "Rust's ownership discipline: a &mut reference handed out once is used by one thread at a time (hypothesis `refs` of threads_no_race)",
                 "sequentially consistent per-address writes (no torn writes) for the memory model of Model/Threads.lean"],
     "assumptions": ["element types with non-zero size for the address statements (zero-sized elements have no memory to race on)"],
